@@ -266,3 +266,55 @@ func init() {
 		return sched.Config{Bounds: b, Iterative: true, MaxSteps: 100000}, c15loopBody
 	}})
 }
+
+// ---------------------------------------------------------------------------
+// C09 (H) health monitor with more hosts than its check concurrency: one check round over n hosts for n around
+// MaximumConcurrency (the fan-out channel and the number of workers are capped there), then Stop.
+// oracle    the round ends, every host was checked once, Stop returns (a service's Stop starts with it)
+// ---------------------------------------------------------------------------
+
+type countingChecker struct{ n map[string]int }
+
+func (c *countingChecker) Check(addr string, timeout time.Duration) error {
+	c.n[addr]++
+	return nil
+}
+
+func c09manyHostsBody() {
+	n := []int{MaximumConcurrency - 1, MaximumConcurrency, MaximumConcurrency + 1, MaximumConcurrency + 60}[sched.Choose(sched.ClsInput, 4, "hosts")]
+	var hs []*hostpkg.Host
+	for i := 0; i < n; i++ {
+		hs = append(hs, hostpkg.New(fmt.Sprintf("10.%d.%d.%d:80", 1+i/65536, (i/256)%256, i%256)))
+	}
+	set := hostpkg.NewSet(hs...)
+	cfg := &pbhc.HealthCheck{Interval: time.Second, Timeout: time.Second, RiseThreshold: 1, FallThreshold: 1,
+		Checker: &pbhc.HealthCheck_TcpChecker{TcpChecker: &pbhc.TCPChecker{}}}
+	m, err := NewMonitor(cfg, set, log.New("verif"))
+	if err != nil || m == nil {
+		sched.Fail("harness-newmonitor", fmt.Sprint(err))
+		return
+	}
+	chk := &countingChecker{n: map[string]int{}}
+	m.checker = chk
+	m.Start()
+	sched.WaitQuiescent()
+	sched.AdvanceTime(int64(time.Second))
+	sched.WaitQuiescent()
+	stopped := false
+	sched.GoNamed("stopper", func() { m.Stop(); stopped = true })
+	sched.WaitQuiescent()
+	if !stopped {
+		sched.Fail("monitor-stop-never-returns / more hosts than the check concurrency", fmt.Sprintf("%d hosts (concurrency cap %d): Stop did not return after one check round; %d hosts were checked", n, MaximumConcurrency, len(chk.n)))
+		return
+	}
+	if len(chk.n) != n {
+		sched.Fail("hosts-not-checked / more hosts than the check concurrency", fmt.Sprintf("%d hosts, %d checked in one round", n, len(chk.n)))
+	}
+	sched.SetOutcome(fmt.Sprint(n))
+}
+
+func init() {
+	sched.Register(&sched.Scenario{Name: "C09/hc-many-hosts", Setup: func(tier string) (sched.Config, func()) {
+		return sched.Config{Bounds: sched.Bounds{}, Iterative: true, MaxSteps: 2000000}, c09manyHostsBody
+	}})
+}
